@@ -1,0 +1,22 @@
+//go:build verif
+
+package metric
+
+import "sync"
+
+// NewMetricLogWriterForVerif builds a metric log writer over an explicit directory, base file
+// name and time-zone offset (the public constructor takes them from the global config and
+// the host's zone). Verification harness only.
+func NewMetricLogWriterForVerif(baseDir, baseFilename string, maxSize uint64, maxFileAmount uint32, timezoneOffsetSec int64) (*DefaultMetricLogWriter, error) {
+	writer := &DefaultMetricLogWriter{
+		maxSingleSize:     maxSize,
+		maxFileAmount:     maxFileAmount,
+		timezoneOffsetSec: timezoneOffsetSec,
+		latestOpSec:       0,
+		baseDir:           baseDir,
+		baseFilename:      baseFilename,
+		mux:               new(sync.RWMutex),
+	}
+	err := writer.initialize()
+	return writer, err
+}
